@@ -1,4 +1,5 @@
 import DadiVerif.Model.ND
+import DadiVerif.Model.Fold
 import DadiVerif.Generated.Likelihood
 /-
 C11 — executable model of dadi/Inference.py `ll`, `ll_per_bin`, `ll_multinom(_per_bin)`,
@@ -10,7 +11,10 @@ theorems of Props/C11.lean instantiate the *same* definitions at `ℝ`.
 The entry-wise formulas (`Gen.Lik.llPerBinCell`, `optScale`, `linResidCell`, `anscombeCell`), the auto-fold
 switches and the corner re-masking switch of `intersect_masks` are generated from the current source
 (tools/gen_Likelihood.py).  `Spectrum.fold` (dadi/Spectrum_mod.py:631-682) is modelled here by hand on the
-flat array (reversing all axes of a C-ordered array = reversing the flat array) and tied by correspondence.
+flat array (reversing all axes of a C-ordered array = reversing the flat array), polymorphic in the scalar type;
+its `Rat` instance is proved equal to the fold model of C09 (`Fold.foldSpec` of Model/Fold.lean, whose pointwise
+programs are regenerated from `Spectrum.fold`) in Lemmas/LikFold.lean — `toC09` / `ofC09` / `foldViaC09` below are
+that bridge, and the driver op `lik_fold` runs both.
 Core Lean only.
 -/
 namespace DadiVerif.Lik
@@ -129,5 +133,21 @@ def wellFormed (M D : MSpec α) : Bool :=
     (`_check_other_folding`); after auto-folding this is left exactly when the model is folded and the data is not -/
 def foldingClash (flag : Bool) (M D : MSpec α) : Bool :=
   (autofold flag M D).folded != D.folded
+
+/-! ### the bridge to the fold model of C09 (Model/Fold.lean: pointwise programs generated from `Spectrum.fold`) -/
+
+/-- the C09 spectrum carrying the values and masks of `M` (labels play no role in the likelihoods) -/
+def toC09 (M : MSpec Rat) : Fold.Spec :=
+  ⟨M.shape, (M.cells.map Cell.val).toArray, (M.cells.map Cell.mask).toArray, M.folded, none⟩
+
+/-- a C09 spectrum as a spectrum of the likelihood model (every entry finite) -/
+def ofC09 (S : Fold.Spec) : MSpec Rat :=
+  ⟨S.shape, (List.range S.N).map fun k => (⟨S.x k, S.m k, false⟩ : Cell Rat), S.folded⟩
+
+/-- `model.fold()` computed by the C09 model of `Spectrum.fold` (`none` = it raises) -/
+def foldViaC09 (M : MSpec Rat) : Option (MSpec Rat) :=
+  match Fold.foldSpec (toC09 M) with
+  | .ok F => some (ofC09 F)
+  | _ => none
 
 end DadiVerif.Lik
